@@ -277,6 +277,51 @@ fn lookup_desc(prog: &Program, li: usize, depth: usize) -> String {
     s
 }
 
+/// Static upper bound on how much one pass of lookup `li` can lengthen the run (factor per glyph).
+fn growth_factor(prog: &Program, li: usize, depth: usize) -> f64 {
+    let lk = match prog.gsub.lookups.get(li) {
+        Some(l) => l,
+        None => return 1.0,
+    };
+    let mut f: f64 = 1.0;
+    for s in &lk.subs {
+        match s {
+            Sub::Multiple { seqs, .. } => {
+                for q in seqs {
+                    f = f.max(q.len() as f64);
+                }
+            }
+            Sub::Ctx1 { sets, .. } | Sub::Ctx2 { sets, .. } | Sub::Chain1 { sets, .. } | Sub::Chain2 { sets, .. } if depth < 4 => {
+                for r in sets.iter().flatten().flatten() {
+                    let g: f64 = r.recs.iter().map(|&(_, l)| (growth_factor(prog, l as usize, depth + 1) - 1.0).max(0.0)).sum();
+                    f = f.max(1.0 + g);
+                }
+            }
+            Sub::Ctx3 { recs, .. } | Sub::Chain3 { recs, .. } if depth < 4 => {
+                let g: f64 = recs.iter().map(|&(_, l)| (growth_factor(prog, l as usize, depth + 1) - 1.0).max(0.0)).sum();
+                f = f.max(1.0 + g);
+            }
+            _ => {}
+        }
+    }
+    f
+}
+
+/// Bound on the run length any engine can reach on this program from `len` glyphs.
+fn growth_bound(prog: &Program, len: usize) -> f64 {
+    let mut used: Vec<u16> = prog.gsub.features.iter().flat_map(|f| f.lookups.iter().copied()).collect();
+    for r in prog.gsub.fv.iter().flatten() {
+        used.extend(r.substs.iter().flat_map(|s| s.1.iter().copied()));
+    }
+    used.sort_unstable();
+    used.dedup();
+    let mut b = len.max(1) as f64;
+    for l in used {
+        b *= growth_factor(prog, l as usize, 0);
+    }
+    b
+}
+
 fn restrict(prog: &Program, max_lookup: u16) -> Program {
     let mut p = prog.clone();
     for f in p.gsub.features.iter_mut() {
@@ -506,6 +551,12 @@ impl Prop for C04 {
                     let exp = to_obs(&out.glyphs);
                     let strict = core && out.ambiguous.is_empty();
                     cx.evals += 0;
+                    if out.ambiguous.contains("runaway-program") || (!strict && growth_bound(prog, input.len()) > 30_000.0) {
+                        // a program that can blow the run up is C02's business (time/memory
+                        // monitors); here it would only make the worker slow
+                        cx.class("skipped:run-may-explode");
+                        continue;
+                    }
                     let got = if strict {
                         match cx.guard(path.name(), built.font.len(), || observe(&built, prog, path, &sel, &input)) {
                             Some(r) => r,
